@@ -32,6 +32,9 @@ ScenarioFails(ev) ==
   \cup (IF SeqToSet(ev.segmented_sum) = want /\ ev.segmented_unit THEN {} ELSE {"segments_sum"})
   \cup (IF SeqToSet(ev.split_low) \cup SeqToSet(ev.split_high) = want /\ SeqToSet(ev.split_low) \cap SeqToSet(ev.split_high) = {}
            /\ SeqToSet(ev.split_low) = Ring(ev.n, ev.inner, ev.mid) THEN {} ELSE {"additive_over_adjacent_ranges"})
+  \* the adjacent ranges integrated one after the other from ONE pattern object (which was integrated over the whole range before)
+  \cup (IF SeqToSet(ev.pattern_low) = Ring(ev.n, ev.inner, ev.mid) /\ SeqToSet(ev.pattern_high) = Ring(ev.n, ev.mid, ev.outer)
+        THEN {} ELSE {"integrate_radial_additive_on_one_pattern_object"})
   \cup (IF \A k \in 1..Len(ev.flex_bins) :
              SeqToSet(ev.flex_bins[k]) = Ring(ev.n, RAdd(ev.flex_offset, RMul(RInt(k - 1), ev.flex_width)),
                                                      RAdd(ev.flex_offset, RMul(RInt(k), ev.flex_width)))
